@@ -156,6 +156,19 @@ func buildC07(tier string) *core.Plan {
 					return
 				}
 			}
+			// selected again below a hidden parent: emitted as its own output, so it must be validated
+			resel := map[string]any{"h": map[string]any{"$output": false, "s": map[string]any{"$output": true, "v": d}}, "k": 1}
+			c.Eval()
+			c.Trans(2)
+			outs, err = evalTree(resel)
+			if !c07Invariant(c, "no-stray-marker-reselected", "reselected: "+w, outs, err) {
+				return
+			}
+			if s, ok := m.(string); ok && s == "$required" && err == nil && c07HasValue(d, "$required") {
+				c.Outcome("REQUIRED-ACCEPTED")
+				c.Fail("required-is-refused", "required-accepted-in-reselected-subtree", "reselected: "+w, map[string]any{"output": outs})
+				return
+			}
 			// inside an $encode: json subtree: the encoded text must be clean too
 			enc := map[string]any{"e": map[string]any{"$encode": "json", "v": d}}
 			c.Eval()
@@ -289,7 +302,7 @@ func buildC07(tier string) *core.Plan {
 	return &core.Plan{
 		Spaces: []core.Space{inject, required, yamlSpace},
 		Rule: "every single injection of every marker (15 string markers as value/entry/key, 10 directive keys x 5 argument kinds with and without an extra key) into every base tree, " +
-			"each evaluated plain, under $output: false, inside $encode: json and as a lower layer; every lower layer with $required at any positions x every subset overridden",
+			"each evaluated plain, under $output: false, re-selected by $output: true below a hidden parent, inside $encode: json and as a lower layer; every lower layer with $required at any positions x every subset overridden",
 		Assumptions: []string{"invariant: a successful output contains no key or string equal to $required or matching ^\\$\\p{Ll} (inputs contain no $$)",
 			"definite expectations only where the statement fixes them: visible $required not overridden => error; overridden by a non-null value => success with that value; hidden marker => if success then absent"},
 		Bounds: map[string]any{"base_nodes": nb, "bases": len(bases), "markers": len(markers), "injected_docs": len(cases), "required_lowers": len(reqBases)},
